@@ -501,6 +501,11 @@ func (cs *ConsensusState) setProposal(proposal *types.Proposal) error {
 		return ErrInvalidProposalPOLRound
 	}
 
+	// A block has at most MaxBlockPartsCount parts: no part set is sized by a larger claim.
+	if proposal.POLBlockID.PartsHeader.Total > types.MaxBlockPartsCount {
+		return fmt.Errorf("proposal names %d block parts, a block has at most %d", proposal.POLBlockID.PartsHeader.Total, types.MaxBlockPartsCount)
+	}
+
 	proposalAddress := cs.Validators.GetProposer().Address
 	signBytes := types.ProposalSignBytes(cs.state.ChainID, proposal.ToProto())
 	if !types.VerifySignature(proposalAddress, crypto.Keccak256(signBytes), proposal.Signature) {
